@@ -12,11 +12,6 @@ import (
 
 const keyAllocAhead = "C18-alloc-ahead-of-data"
 
-// keyExpireOrder: expire_misbehave subtracts the points of the record AFTER the expired one.  Class (over
-// the history the case builds up, not over the outcome): at a tick the connection's history holds an
-// expired record followed by a record younger than an hour.
-const keyExpireOrder = "C18-misbehave-expiry-order"
-
 // walker follows the layout of gocoin's transaction decoder (version, optional 00 01 marker, inputs,
 // outputs, witness stacks, lock time) and notes whether a declared CompactSize count or length
 // exceeds the number of bytes that are left - the situation in which btc.NewTx / BuildTxListExt
